@@ -273,6 +273,11 @@ fn gen_pair(t: &mut Tape) -> Pair {
                 s.push_str(&format!("    (va{i}, vb{i}) = ({e1}, {e2});\n    ta{i} <== va{i} + vb{i};\n    tb{i} <== 1;\n"));
                 e.push_str(&format!("    va{i} = {e1};\n    vb{i} = {e2};\n    ta{i} <== va{i} + vb{i};\n    tb{i} <== 1;\n"));
             }
+            2 if t.chance(100) => {
+                forms.push("tuple nested three levels deep");
+                s.push_str(&format!("    (((ta{i}, tb{i}), va{i}), _) <== ((({e1}, {e2}), {e3}), 5);\n"));
+                e.push_str(&format!("    ta{i} <== {e1};\n    tb{i} <== {e2};\n    va{i} <== {e3};\n"));
+            }
             2 => {
                 forms.push("nested tuple");
                 s.push_str(&format!("    (ta{i}, (tb{i}, va{i})) <== ({e1}, ({e2}, {e3}));\n"));
